@@ -21,6 +21,7 @@ Comparison, admissible open aspects, classes of failures: see bounded/bC01.py.
 """
 from __future__ import annotations
 
+import os
 import sys
 import time
 
@@ -92,7 +93,7 @@ def _has_cut(d):
 
 
 def run(tier='quick', seed=0, info=None):
-    budget = Budget(100 if tier == 'quick' else 1000)
+    budget = Budget(float(os.environ.get('VERIF_BOUNDED_BUDGET_S', 0)) or (100 if tier == 'quick' else 1000))
     items, summary = [], []
 
     def go(name, descs, plan, **kw):
